@@ -1294,9 +1294,30 @@ def unroll_const_loops(func, limit=8):
                     it = consts[it.id]
                 elif isinstance(it, ast.Name) and len(ldefs.get(it.id, [])) == 1 and isinstance(ldefs[it.id][0], (ast.Tuple, ast.List)) and it.id not in mutated:
                     it = ldefs[it.id][0]  # a local literal tuple that is only iterated
+                def pure_path(x):
+                    """an access path (a.b[c].d) without calls, not written or mutated in the loop body"""
+                    y = x
+                    while isinstance(y, (ast.Attribute, ast.Subscript)):
+                        if isinstance(y, ast.Subscript) and not isinstance(y.slice, (ast.Constant, ast.Name)):
+                            return False
+                        y = y.value
+                    if not isinstance(y, ast.Name) or y is x:
+                        return False
+                    t = norm(x)
+                    for b_ in st.body:
+                        for z in ast.walk(b_):
+                            if isinstance(z, (ast.Attribute, ast.Subscript)) and isinstance(z.ctx, (ast.Store, ast.Del)) and norm(z).startswith(t):
+                                return False
+                            if isinstance(z, ast.Call) and isinstance(z.func, ast.Attribute) and z.func.attr in _MUTATORS and norm(z.func.value).startswith(t):
+                                return False
+                    return True
+
+                def atom(x):
+                    return isinstance(x, (ast.Constant, ast.Name)) or pure_path(x)
+
                 def simple(e):
                     if tuple_target is not None:
-                        return isinstance(e, ast.Tuple) and len(e.elts) == len(tuple_target) and all(isinstance(x, (ast.Constant, ast.Name)) for x in e.elts)
+                        return isinstance(e, ast.Tuple) and len(e.elts) == len(tuple_target) and all(atom(x) for x in e.elts)
                     return isinstance(e, (ast.Constant, ast.Name)) or (isinstance(e, ast.Tuple) and all(isinstance(x, (ast.Constant, ast.Name)) for x in e.elts))
 
                 body_stores = {x.id for b_ in st.body for x in ast.walk(b_) if isinstance(x, ast.Name) and isinstance(x.ctx, ast.Store)}
